@@ -483,7 +483,7 @@ def all_jobs():
         J.append(dict(id='bi_' + name, src='blocc/builtin/builtin_%s.cpp' % name, contract='builtin_generic.c', enforce=mg, roots=[mg], replace=list(MEMB_REPLACE) + [V_CTOR_IMAG], cut=list(MEMB_CUT) + [V_CTOR_IMAG],
                       props=['C01', 'C05'] + (['C02'] if (ftype or follows or tyform) else []) + (['C03', 'C04', 'C10'] if name in ('int', 'num') else []) + (['C10'] if name == 'isnum' else []) + (['C03'] if name == 'mod' else []), pretty='bloc::%s::value' % cls, canaries=['normal', 'exceptional'], unwind=uw,
                       unwind_why=uw_why,
-                      defines=['BUILTIN_FN=' + mg, 'BUILTIN_CLASS=' + cls, 'BUILTIN_NARGS=%d' % nargs] + (['BUILTIN_STR_MAX=%d' % strmax] if strmax else []) + (['BUILTIN_TYPE=' + ftype] if ftype else []) + (['BUILTIN_TYPE_FOLLOWS_COMPLEX'] if follows else []) + ([tyform] if tyform else []) + (['BUILTIN_RESULT_IS_CONTAINER'] if ftype in ('LITERAL', 'TABCHAR') else []) + (['BUILTIN_ABS'] if name == 'abs' else []) + (['BUILTIN_IS_INT'] if name == 'int' else []) + (['BUILTIN_IS_NUM'] if name == 'num' else []) + (['BUILTIN_IS_ISNUM'] if name == 'isnum' else []) + (['BUILTIN_IS_MOD'] if name == 'mod' else []) + (['FIND_SCAN_VARIANT'] if name == 'replace' else []),
+                      defines=['BUILTIN_FN=' + mg, 'BUILTIN_CLASS=' + cls, 'BUILTIN_NARGS=%d' % nargs] + (['BUILTIN_STR_MAX=%d' % strmax] if strmax else []) + (['BUILTIN_TYPE=' + ftype] if ftype else []) + (['BUILTIN_TYPE_FOLLOWS_COMPLEX'] if follows else []) + ([tyform] if tyform else []) + (['BUILTIN_RESULT_IS_CONTAINER'] if ftype in ('LITERAL', 'TABCHAR') else []) + (['BUILTIN_ABS'] if name == 'abs' else []) + (['BUILTIN_IS_INT'] if name == 'int' else []) + (['BUILTIN_IS_NUM'] if name == 'num' else []) + (['BUILTIN_IS_ISNUM'] if name == 'isnum' else []) + (['BUILTIN_IS_MOD'] if name == 'mod' else []) + (['FIND_SCAN_VARIANT', 'BUILTIN_IS_REPLACE'] if name == 'replace' else []),
                       replay=dict(kind='evalnode', headers=['blocc/builtin/builtin_%s.h' % name], mirror_class=cls, children=nargs,
                                   construct='new bloc::%s(std::vector<bloc::Expression*>{%s})' % (cls, ', '.join('kids[%d]' % i for i in range(nargs))),
                                   script='%s(%s)' % (name, ', '.join('{%d}' % i for i in range(nargs)))),
